@@ -224,6 +224,86 @@ Section Wiring.
   Qed.
 End Wiring.
 
+(* ------------------------------------------------------------------ Schwarz: when the mixed partials commute *)
+Lemma upd_comm (x : list R) i j u v : i <> j -> upd (upd x j v) i u = upd (upd x i u) j v.
+Proof.
+  revert i j. induction x as [|a x IH]; intros i j H; [reflexivity|].
+  destruct i as [|i], j as [|j]; cbn; [now elim H|reflexivity|reflexivity|].
+  f_equal. apply IH. congruence.
+Qed.
+
+(* f restricted to coordinates i and j *)
+Definition F2 (f : list R -> R) (x : list R) (i j : nat) (u v : R) : R := f (upd (upd x i u) j v).
+
+(* the premises of Schwarz' theorem for f in coordinates (i, j) at x: first and mixed second partials exist
+   near x and the mixed second partials are continuous at x *)
+Definition schwarz_regular (f : list R -> R) (x : list R) (i j : nat) : Prop :=
+  locally_2d (fun u v =>
+    ex_derive (fun z => F2 f x i j z v) u /\ ex_derive (fun z => F2 f x i j u z) v /\
+    ex_derive (fun z => Derive (fun t => F2 f x i j z t) v) u /\
+    ex_derive (fun z => Derive (fun t => F2 f x i j t z) u) v) (nth i x 0) (nth j x 0)
+  /\ continuity_2d_pt (fun u v => Derive (fun z => Derive (fun t => F2 f x i j z t) v) u) (nth i x 0) (nth j x 0)
+  /\ continuity_2d_pt (fun u v => Derive (fun z => Derive (fun t => F2 f x i j t z) u) v) (nth i x 0) (nth j x 0).
+
+Lemma mixed_commute_schwarz (f : list R -> R) x i j : i <> j -> schwarz_regular f x i j ->
+  Derive (fun v => partial_at f (upd x j v) i) (nth j x 0) = Derive (fun u => partial_at f (upd x i u) j) (nth i x 0).
+Proof.
+  intros Hij [HD [HC2 HC1]].
+  pose proof (Schwarz (F2 f x i j) (nth i x 0) (nth j x 0) HD HC2 HC1) as S.
+  transitivity (Derive (fun z => Derive (fun t => F2 f x i j t z) (nth i x 0)) (nth j x 0)).
+  - apply Derive_ext. intros v. unfold partial_at. rewrite nth_upd_other by exact Hij.
+    apply Derive_ext. intros t. unfold F2. now rewrite upd_comm.
+  - rewrite <- S. apply Derive_ext. intros u. unfold partial_at.
+    rewrite nth_upd_other by (intro E; apply Hij; now symmetry).
+    apply Derive_ext. intros t. reflexivity.
+Qed.
+
+Section Symmetry.
+  Variable Drev : (list R -> R) -> list R -> list R.
+  Variable Dfwd : (list R -> list R) -> list R -> list (list R).
+  Hypothesis Drev_contract : forall f x, smooth1 f x ->
+    length (Drev f x) = length x /\ forall c, (c < length x)%nat -> nth c (Drev f x) 0 = partial_at f x c.
+  Hypothesis Dfwd_contract : forall g x i, smooth1 (fun y => nth i (g y) 0) x ->
+    forall c, (c < length x)%nat -> nth c (nth i (Dfwd g x) []) 0 = partial_at (fun y => nth i (g y) 0) x c.
+
+  (* PARTIAL (Hessian symmetry): proved for every function that is regular in the sense of Schwarz' theorem;
+     that the fitted predictor's value is that regular is not proved (it is a finite sum of smooth kernels). *)
+  Lemma hessian_symmetric_schwarz_partial (f : list R -> R) x i j :
+    (forall y, length y = length x -> smooth1 f y) ->
+    (forall k, smooth1 (fun y => nth k (Drev f y) 0) x) ->
+    (i < length x)%nat -> (j < length x)%nat -> (i <> j -> schwarz_regular f x i j) ->
+    nth j (nth i (Dfwd (Drev f) x) []) 0 = nth i (nth j (Dfwd (Drev f) x) []) 0.
+  Proof.
+    intros Hs Hs2 Hi Hj Hreg.
+    destruct (Nat.eq_dec i j) as [E|E]; [now subst|].
+    rewrite (hessian_entries Drev Dfwd Drev_contract Dfwd_contract f x i j Hs (Hs2 i) Hi Hj),
+            (hessian_entries Drev Dfwd Drev_contract Dfwd_contract f x j i Hs (Hs2 j) Hj Hi).
+    now apply mixed_commute_schwarz; [|apply Hreg].
+  Qed.
+End Symmetry.
+
+Lemma D_lin_r (z v : R) : Derive (fun t => z * t) v = z.
+Proof. apply is_derive_unique. auto_derive; [exact I|ring]. Qed.
+Lemma D_lin_l (z u : R) : Derive (fun t => t * z) u = z.
+Proof. apply is_derive_unique. auto_derive; [exact I|ring]. Qed.
+
+(* non-vacuity of schwarz_regular: f(l) = l_0 * l_1 at [1; 2] *)
+Lemma schwarz_regular_example :
+  0%nat <> 1%nat /\ schwarz_regular (fun l : list R => nth 0 l 0 * nth 1 l 0) [1; 2] 0 1.
+Proof.
+  split; [discriminate|]. unfold schwarz_regular, F2. cbn [upd nth].
+  split; [|split].
+  - apply locally_2d_forall. intros u v. repeat split.
+    + auto_derive; exact I.
+    + auto_derive; exact I.
+    + apply (ex_derive_ext (fun z => z)); [intros z; symmetry; apply D_lin_r|]. auto_derive; exact I.
+    + apply (ex_derive_ext (fun z => z)); [intros z; symmetry; apply D_lin_l|]. auto_derive; exact I.
+  - apply (continuity_2d_pt_ext (fun _ _ => 1)); [|apply continuity_2d_pt_const].
+    intros u v. symmetry. rewrite (Derive_ext _ (fun z => z)) by (intros z; apply D_lin_r). apply Derive_id.
+  - apply (continuity_2d_pt_ext (fun _ _ => 1)); [|apply continuity_2d_pt_const].
+    intros u v. symmetry. rewrite (Derive_ext _ (fun z => z)) by (intros z; apply D_lin_l). apply Derive_id.
+Qed.
+
 (* ------------------------------------------------------------------ Part 3: shapes *)
 (* scalar-valued predictor on x of shape (n, d): gradient has x.shape, hessian x.shape + (d,),
    log-determinant two vectors of n entries; every reshape preserves the number of entries *)
